@@ -1,10 +1,12 @@
 import PedVerif.Drv.Util
 import PedVerif.Spec.Frozen
+import PedVerif.Drv.FrozenIR
 namespace PedVerif.Drv.Frozen
 open Lean PedVerif.Drv PedVerif.Frozen
 
 /-- values: ["a"] None | ["i", n] | ["s", [code points]] | ["t", id, items] | ["l"|"d"|"e"|"f"|"o", id, items]
-    (list / dict / set / frozenset / instance of a plain class with attributes a0, a1, …) | ["z", id, items, cid]
+    (list / dict / set / frozenset / instance of a plain class with attributes a0, a1, …) | ["u", id, [], variant] (an object that
+    `copy.deepcopy` cannot duplicate) | ["z", id, items, cid]
     (instance of the `@frozen_dataclass` class `cid` whose field values, in field order, are `items`) -/
 partial def objOf (j : Json) : Obj :=
   match jTag j with
@@ -17,6 +19,7 @@ partial def objOf (j : Json) : Obj :=
   | "f" => .box .fset (jN (jAt j 1)) ((jL (jAt j 2)).map objOf)
   | "o" => .box .obj (jN (jAt j 1)) ((jL (jAt j 2)).map objOf)
   | "z" => .box (.fz (jN (jAt j 3))) (jN (jAt j 1)) ((jL (jAt j 2)).map objOf)
+  | "u" => .atom (.unc (jN (jAt j 1)))                  -- ["u", id, [], variant]: a lock / generator / object whose __deepcopy__ raises
   | _ => .atom .none
 
 def dfltOf (j : Json) : Dflt :=
@@ -30,6 +33,14 @@ def fieldOf (j : Json) : FieldD := ⟨jN (jF j "n"), dfltOf (jF j "d"), jB (jF j
 def layerOf (j : Json) : Layer :=
   ⟨jN (jF j "cid"), jB (jF j "dec"), jB (jF j "ts"), jB (jF j "order"), jB (jF j "kw"), jB (jF j "slots"), jB (jF j "post"),
    (jL (jF j "own")).map fieldOf⟩
+
+/-- "hz" of a class statement: what makes `dataclasses` refuse it under certain options -/
+def hazardOf (j : Json) : Hazard :=
+  match jS (jF j "hz") with
+  | "dcbase" => .nonFrozenDataclassBase
+  | "userlt" => .ownLt
+  | "ownslots" => .ownSlots
+  | _ => .none
 
 def kwOf (j : Json) : List (Nat × Obj) := (jL j).map (fun p => (jN (jAt p 0), objOf (jAt p 1)))
 def posOf (j : Json) : List Obj := (jL j).map objOf
@@ -88,11 +99,58 @@ def copyOutJ (live : List Inst) (self : Inst) (kw : List (Nat × Obj)) (r : Exce
            ("journal", jArr (o.journal.map evJ)),
            ("fields", jArr ((fieldsOf self.cls).map (fieldFacts live self o.result kw)))]
 
+/-! the same operations run through the statement programs of `Gen/FrozenIR.lean` (`Model/FrozenIR.lean`): which statements execute, and
+    whether the interpreted method returns what the hand model returns -/
+
+def irEnv : PedVerif.Checker.Env := PedVerif.Drv.Checker.parseEnv Json.null
+/-- every field is annotated `Any` in the generated modules of C11 -/
+def anyFvs (n : Nat) : List (PedVerif.TypeSafe.Field × PedVerif.Checker.Val) := List.replicate n (⟨0, .any⟩, .lit (.int 0))
+
+/-- the statements the `__post_init__` chain of `cls` executes when the generated `__init__` calls it on construction path `tp`, the operation
+    being executed by the harness function `caller` -/
+def initPath (cls : Cls) (tp : PedVerif.TypeSafe.Path) (caller : String) : List Nat :=
+  (PedVerif.FrozenIR.runInit ⟨irEnv, [], fun _ _ => .raisedOther, anyFvs (fieldsOf cls).length, tp, { name := caller }, [{ name := "<harness>" }]⟩
+    (PedVerif.FrozenIR.hookOfCls cls)).2.2
+
+def irCopyJ (live : List Inst) (deep : Bool) (self : Inst) (kw : List (Nat × Obj)) (n : Nat) (hand : Except Exc CopyOut) : Json :=
+  let (res, p) := PedVerif.FrozenIR.runC self kw (if deep then PedVerif.Gen.FrozenIR.deepCopyWithProg else PedVerif.Gen.FrozenIR.copyWithProg) { next := n } []
+  let tp : PedVerif.TypeSafe.Path := if deep then .deepCopyWith else .copyWith
+  let full := match res with
+    | some (.ok o) => p ++ initPath o.result.cls tp "run_copy"
+    | _ => p
+  mkObj [("path", PedVerif.Drv.FrozenIR.pathJ full),
+         ("agrees", jBool (match res with
+            | some r => (copyOutJ live self kw r).compress == (copyOutJ live self kw hand).compress
+            | none => false)),
+         ("journalAgrees", jBool (PedVerif.FrozenIR.irPostInitEvents self.cls == postInitEvents self.cls))]
+
+/-- the decorations one generated module performs: the fixed helper classes (`"zdeco"`), then the class statements of the chain, base first;
+    a class statement that `dataclasses` refuses (`layerDefOk`) ends its decoration at the `dataclass()` call — and the module -/
+def decoLayers : Cls → List Hazard → List Nat × Bool
+  | [], _ => ([], true)
+  | l :: rest, hs =>
+    let (p, ok) := decoLayers rest hs.tail
+    if !ok then (p, false)
+    else if !l.decorated then (p, true)
+    else
+      let fails := !layerDefOk l rest || (hs.headD .none).refused l
+      (p ++ PedVerif.Drv.FrozenIR.decoOne ⟨l.typeSafe, l.order, l.kwOnly, l.slots⟩ false false fails, !fails)
+
+def irDecoJ (c : Json) (cls : Cls) : Json :=
+  let hs := (jL (jF c "cls")).map hazardOf
+  match jF c "zdeco" with
+  | .null => Json.null
+  | d => PedVerif.Drv.FrozenIR.pathJ
+      (((jL d).map fun x => PedVerif.Drv.FrozenIR.decoOne (PedVerif.Drv.FrozenIR.paramsOf x) (jB (jAt x 4)) (jB (jAt x 5)) (jB (jAt x 6))).flatten
+        ++ (decoLayers cls hs).1)
+
 def copyJ (deep : Bool) (self : Inst) (kw : List (Nat × Obj)) (n : Nat) : Json :=
-  copyOutJ [self] self kw (if deep then deepCopyWith self kw n else copyWith self kw n)
+  let hand := if deep then deepCopyWith self kw n else copyWith self kw n
+  (copyOutJ [self] self kw hand).mergeObj (mkObj [("ir", irCopyJ [self] deep self kw n hand)])
 
 def copySpecJ (deep : Bool) (self : Inst) (kw : List (Nat × Obj)) : Json :=
-  mkObj [("valid", jBool (specKwValid self.cls kw)),
+  mkObj [("valid", jBool (specKwValid self.cls kw)), ("copyable", jBool (!deep || specDeepCopyable self)),
+         ("sharedDefault", jArr (if deep then (specSharedDefaultFields self.cls).map jNat else [])),
          ("expect", jArr ((fieldsOf self.cls).map (fun f => jArr [jNat f.name, expectJ (specExpect deep kw f)])))]
 
 /-! histories -/
@@ -147,12 +205,17 @@ def histJ (spec0 : Inst) : Hist → List Json → List Json × List Json × Bool
       let st := Step.copy deep kw (jN (jAt j 3))
       let ok := histStepOk h st
       let (h', out) := stepH h st
+      let irj : Json := match h.insts[jN (jAt j 3)]? with
+        | some recv => irCopyJ h.insts deep recv kw h.next (if deep then deepCopyWith recv kw h.next else copyWith recv kw h.next)
+        | none => Json.null
       let mj := match out with
-        | .copied recv o => copyOutJ h.insts recv kw (.ok o)
-        | .raised e => mkObj [("out", excJ e)]
+        | .copied recv o => (copyOutJ h.insts recv kw (.ok o)).mergeObj (mkObj [("ir", irj)])
+        | .raised e => mkObj [("out", excJ e), ("ir", irj)]
         | .noInst => mkObj [("out", jStr "noinst")]
         | _ => mkObj [("out", jStr "unknown")]
       let sj := mkObj [("valid", jBool (specKwValid spec0.cls kw)),
+                       ("copyable", jBool (!deep || (match h.insts[jN (jAt j 3)]? with | some recv => specDeepCopyable recv | none => true))),
+                       ("sharedDefault", jArr (if deep then (specSharedDefaultFields spec0.cls).map jNat else [])),
                        ("expect", jArr ((fieldsOf spec0.cls).map (fun f => jArr [jNat f.name, expectJ (specExpect deep kw f)])))]
       let (ms, ss, oks) := histJ spec0 h' rest
       (mj :: ms, sj :: ss, ok && oks)
@@ -202,9 +265,9 @@ def cmpJ (a : Inst) (c2 : Cls) (ctor2 : Json) (n : Nat) : Json × Json :=
     let b := m.inst
     (mkObj [("ctor2", jStr "ok"), ("eq", resBoolJ (eqOp a b)), ("eqRev", resBoolJ (eqOp b a)), ("eqSelf", resBoolJ (eqOp a a)),
             ("hash", hashJ (hashOp a)), ("hash2", hashJ (hashOp b)),
-            ("lt", resBoolJ (ltOp a b)), ("gt", resBoolJ (ltOp b a))],
+            ("lt", resBoolJ (ltOp a b)), ("gt", resBoolJ (ltOp b a)), ("le", resBoolJ (leOp a b)), ("ge", resBoolJ (leOp b a))],
      mkObj [("eq", jBool (specEq a b)), ("hashable", jBool (specHashable a)), ("hashable2", jBool (specHashable b)),
-            ("lt", specLtJ (specLt a b)), ("gt", specLtJ (specLt b a))])
+            ("lt", specLtJ (specLt a b)), ("gt", specLtJ (specLt b a)), ("le", specLtJ (specLe a b)), ("ge", specLtJ (specLe b a))])
 
 def fieldJ (f : FieldR) : Json := jArr [jNat f.name, jBool f.init, jBool f.compare, jBool f.kwOnly]
 
@@ -219,15 +282,18 @@ def handle (c : Json) : Json :=
   let kw := kwOf (jF ctor "kw")
   let op := jF c "op"
   let opKw := kwOf (jAt op 2)
-  let head := [("def", jStr (if defOk cls then "ok" else "deferr")), ("wf", jBool (wfCls cls)),
+  let hs := (jL (jF c "cls")).map hazardOf
+  let head := [("def", jStr (if defOkH cls hs then "ok" else "deferr")), ("wf", jBool (wfCls cls)),
                ("live", jBool (allLive cls (pos ++ (opKw.map (·.2))) kw n)),
                ("fields", jArr ((fieldsOf cls).map fieldJ))]
-  if !defOk cls then mkObj [("model", mkObj head), ("spec", mkObj [])] else
+  if !defOkH cls hs then mkObj [("model", mkObj (head ++ [("irDeco", irDecoJ c cls)])), ("spec", mkObj [("refused", jBool true)])] else
   match construct cls pos kw n with
   | .error e => mkObj [("model", mkObj (head ++ [("ctor", excJ e)])), ("spec", mkObj [])]
   | .ok m =>
     let head := head ++ [("ctor", jStr "ok"), ("journal", jArr (m.journal.map evJ)),
-                         ("set", jArr (m.inst.fields.map (fun kv => jNat kv.1)))]
+                         ("set", jArr (m.inst.fields.map (fun kv => jNat kv.1))),
+                         ("irCtor", PedVerif.Drv.FrozenIR.pathJ (initPath cls .constructor "run_one")),
+                         ("irDeco", irDecoJ c cls)]
     match jTag op with
     | "copy" =>
       let deep := jB (jAt op 1)
